@@ -47,6 +47,7 @@ ENT_STYLES = {
     1: {"&": "&#38;", "<": "&#60;", '"': "&#34;", "'": "&#39;"},
     2: {"&": "&#x26;", "<": "&#x3c;", '"': "&#x22;", "'": "&#x27;"},
     3: {"&": "&#x26;", "<": "&#x3C;", '"': "&#X22;".lower(), "'": "&#x27;"},
+    4: {"&": "&amp;", "<": "&lt;", '"': "&quot;", "'": "&apos;"},
 }
 STYLE = {"n": 0}
 
@@ -122,7 +123,7 @@ def cases(draw):
     return {
         "items": draw(items(3, counter)),
         "comment_interpolation": draw(st.sampled_from([True, True, False])),
-        "entity_style": draw(st.integers(0, 3)),
+        "entity_style": draw(st.integers(0, 4)),
         "bindings": {"a": draw(sc), "b": draw(sc)},
     }
 
